@@ -23,8 +23,34 @@ from unified_planning.model.types import BOOL, TIME, _UserType
 from unified_planning.model.fnode import FNode
 from unified_planning.model.operators import OperatorKind
 from unified_planning.exceptions import UPTypeError
-from typing import List, Optional, cast
-import math
+from typing import Iterable, List, Optional, Union, cast
+
+# Interval bounds are exact numbers (int or Fraction); these two values are
+# only used as symbols for an unbounded side: they are compared with the
+# exact numbers but never enter an arithmetic operation with them, because
+# mixing floats with big ints or Fractions rounds or overflows.
+POS_INF = float("inf")
+NEG_INF = -POS_INF
+Bound = Union[int, Fraction, float]
+
+
+def _sum_bounds(bounds: Iterable[Optional[Union[int, Fraction]]]):
+    """Returns the sum of the given bounds, `None` (unbounded) if one of them is `None`."""
+    res: Union[int, Fraction] = 0
+    for b in bounds:
+        if b is None:
+            return None
+        res += b
+    return res
+
+
+def _ext_mul(a: Bound, b: Bound) -> Bound:
+    """Returns the exact product of 2 bounds that can be infinite; 0 * inf is 0."""
+    if a == 0 or b == 0:
+        return 0
+    if a in (POS_INF, NEG_INF) or b in (POS_INF, NEG_INF):
+        return POS_INF if (a > 0) == (b > 0) else NEG_INF
+    return a * b
 
 
 class TypeChecker(walkers.dag.DagWalker):
@@ -217,8 +243,6 @@ class TypeChecker(walkers.dag.DagWalker):
 
     def walk_plus(self, expression, args):
         has_real = False
-        lower = None
-        upper = None
         is_time = False
         for x in args:
             if x == TIME:
@@ -229,23 +253,8 @@ class TypeChecker(walkers.dag.DagWalker):
                 has_real = True
         if is_time:
             return TIME
-        for x in args:
-            if x.lower_bound is None:
-                lower = -float("inf")
-            elif lower is None:
-                lower = x.lower_bound
-            else:
-                lower += x.lower_bound
-            if x.upper_bound is None:
-                upper = float("inf")
-            elif upper is None:
-                upper = x.upper_bound
-            else:
-                upper += x.upper_bound
-        if lower == -float("inf"):
-            lower = None
-        if upper == float("inf"):
-            upper = None
+        lower = _sum_bounds(x.lower_bound for x in args)
+        upper = _sum_bounds(x.upper_bound for x in args)
         if has_real:
             assert lower is None or isinstance(lower, Fraction)
             assert upper is None or isinstance(upper, Fraction)
@@ -272,16 +281,10 @@ class TypeChecker(walkers.dag.DagWalker):
             return TIME
         left = args[0]
         right = args[1]
-        left_lower = -float("inf") if left.lower_bound is None else left.lower_bound
-        left_upper = float("inf") if left.upper_bound is None else left.upper_bound
-        right_lower = -float("inf") if right.lower_bound is None else right.lower_bound
-        right_upper = float("inf") if right.upper_bound is None else right.upper_bound
-        lower = left_lower - right_upper
-        upper = left_upper - right_lower
-        if lower == -float("inf"):
-            lower = None
-        if upper == float("inf"):
-            upper = None
+        if left.lower_bound is not None and right.upper_bound is not None:
+            lower = left.lower_bound - right.upper_bound
+        if left.upper_bound is not None and right.lower_bound is not None:
+            upper = left.upper_bound - right.lower_bound
         if has_real:
             lower = cast(Optional[Fraction], lower)
             upper = cast(Optional[Fraction], upper)
@@ -301,8 +304,8 @@ class TypeChecker(walkers.dag.DagWalker):
             if x.is_real_type():
                 has_real = True
         for x in args:
-            l = -float("inf") if x.lower_bound is None else x.lower_bound
-            u = float("inf") if x.upper_bound is None else x.upper_bound
+            l = NEG_INF if x.lower_bound is None else x.lower_bound
+            u = POS_INF if x.upper_bound is None else x.upper_bound
             if lower is None:
                 lower = l
                 upper = u
@@ -310,16 +313,17 @@ class TypeChecker(walkers.dag.DagWalker):
                 assert upper is not None
                 # both bounds must be computed from the same products: assigning
                 # lower first and reusing it for upper overestimates the latter.
-                products = (lower * l, lower * u, upper * l, upper * u)
+                products = (
+                    _ext_mul(lower, l),
+                    _ext_mul(lower, u),
+                    _ext_mul(upper, l),
+                    _ext_mul(upper, u),
+                )
                 lower = min(products)
                 upper = max(products)
-        if lower == -float("inf") or (
-            lower is not None and math.isnan(cast(float, lower))
-        ):
+        if lower == NEG_INF:
             lower = None
-        if upper == float("inf") or (
-            upper is not None and math.isnan(cast(float, upper))
-        ):
+        if upper == POS_INF:
             upper = None
         if has_real:
             lower = cast(Optional[Fraction], lower)
@@ -332,32 +336,23 @@ class TypeChecker(walkers.dag.DagWalker):
 
     def walk_div(self, expression, args):
         assert len(args) == 2
-        to_skip = False
         lower = None
         upper = None
         for x in args:
             if x is None or not (x.is_int_type() or x.is_real_type()):
                 return None
-            if x.lower_bound is None and x.upper_bound is None:
-                to_skip = True
         left = args[0]
         right = args[1]
-        if to_skip or right.lower_bound != right.upper_bound:
-            pass
-        else:
-            left_lower = -float("inf") if left.lower_bound is None else left.lower_bound
-            left_upper = float("inf") if left.upper_bound is None else left.upper_bound
-            right = right.lower_bound
-            lower = min(left_lower / right, left_upper / right)
-            upper = max(left_lower / right, left_upper / right)
-        if lower == -float("inf"):
-            lower = None
-        if upper == float("inf"):
-            upper = None
-        if lower is not None:
-            lower = Fraction(lower)
-        if upper is not None:
-            upper = Fraction(upper)
+        divisor = right.lower_bound
+        if divisor is not None and divisor == right.upper_bound:
+            # the divisor is a constant: the bounds are divided exactly (a float
+            # division rounds them) and swapped if the constant is negative
+            if left.lower_bound is not None:
+                lower = Fraction(left.lower_bound) / divisor
+            if left.upper_bound is not None:
+                upper = Fraction(left.upper_bound) / divisor
+            if divisor < 0:
+                lower, upper = upper, lower
         return self.environment.type_manager.RealType(lower, upper)
 
     @walkers.handles(OperatorKind.LE, OperatorKind.LT)
@@ -372,35 +367,33 @@ class TypeChecker(walkers.dag.DagWalker):
     def walk_equals(
         self, expression: FNode, args: List["unified_planning.model.types.Type"]
     ) -> Optional["unified_planning.model.types.Type"]:
-        t = args[0]
-        if t is None:
+        assert len(args) == 2
+        left, right = args
+        if left is None or right is None:
             return None
-
-        if t.is_bool_type():
+        if left.is_bool_type() or right.is_bool_type():
             raise UPTypeError(
                 "The expression '%s' is not well-formed."
                 "Equality operator is not supported for Boolean"
                 " terms. Use Iff instead." % str(expression)
             )
+        if left.is_user_type() and right.is_user_type():
+            if (
+                left != right
+                and not left.is_compatible(right)
+                and not right.is_compatible(left)
+            ):
+                # check if left and right have at least one common ancestor
+                right_ancestors = set(cast(_UserType, right).ancestors)
+                if all(
+                    left_ancestor not in right_ancestors
+                    for left_ancestor in cast(_UserType, left).ancestors
+                ):
+                    return None
+            return BOOL
+        # an object can be equal only to another object, on either side
         for x in args:
-            if x is None:
-                return None
-            elif (
-                t.is_user_type()
-                and t != x
-                and not t.is_compatible(x)
-                and not x.is_compatible(t)
-            ):
-                # check if t and x have at least one common ancestor
-                t = cast(_UserType, t)
-                if x.is_user_type():
-                    x = cast(_UserType, x)
-                    x_ancestors = set(x.ancestors)
-                    if all(t_ancestor not in x_ancestors for t_ancestor in t.ancestors):
-                        return None
-            elif (t.is_int_type() or t.is_real_type()) and not (
-                x.is_int_type() or x.is_real_type()
-            ):
+            if not (x.is_int_type() or x.is_real_type() or x.is_time_type()):
                 return None
         return BOOL
 
